@@ -78,6 +78,9 @@ FirstPick == { FirstSeq[i] : i \in { j \in 1..Len(FirstSeq) : j % Of = Slice % O
 Seconds(f) ==
   CASE Mode = "single" -> { OneCmp(ApplyKnob(f, k)) : k \in Knobs }
     [] Mode = "hyphen" -> { OneCmp(HyphenOf(f, hi)) : hi \in Partials }
+                          \* several blanks / a tab around the dash
+                          \cup { OneCmp([HyphenOf(f, hi) EXCEPT !.ls = <<32, 32>>, !.rs = <<9>>]) :
+                                   hi \in { x \in Partials : x.pre = <<tagA>> \/ x.m.t = "abs" } }
     [] Mode = "pairs"  -> { RangeOf(<< AltOf(<<f, b>>) >>) : b \in PairB } \cup { RangeOf(<< AltOf(<<b, f>>) >>) : b \in PairB }
     [] Mode = "alts"   -> { RangeOf(<< AltOf(<<f>>), AltOf(<<b>>) >>) : b \in PairB }
                           \cup { [RangeOf(<< AltOf(<<f>>), AltOf(<<b>>) >>) EXCEPT !.ors = << [l |-> <<32>>, r |-> <<32, 32>>] >>] : b \in PairB }
